@@ -22,3 +22,4 @@ fb6_t verif_outer_2_3(fb6_t a /* 2 live */, fb6_t b /* 3 live */)
     for (nm_size_t i = 0; i < 2; i++) for (nm_size_t j = 0; j < 3; j++) out[i*3+j] = v(i,j);
     return out;
 }
+
